@@ -51,7 +51,7 @@ type whReplay struct {
 func TestC10_Webhook(t *testing.T) {
 	c := ev.New("C10", "webhook", "exploration")
 	t.Cleanup(c.Flush)
-	c.Rule("1-3 fences, each installed as SETHOOK to a local HTTP endpoint in the test process and as a twin SETCHAN with a subscriber (WITHIN/INTERSECTS/NEARBY, generated DETECT lists, optional META), on 1-3 keys; 1-4 writer connections send bursts (3-12, mostly pipelined) of SET/DEL/FSET/DROP; each endpoint consumes a generated script, one action per arriving request: answer 200 (optionally slowly), answer 500, die while handling the request (no response, listener and connections closed, re-listen after 0-1200 ms), never answer (thorough only), or refuse connections from the start; total outage per hook below 2.5 s (quick) / 9 s (thorough). Oracle: the sequence of request bodies answered 200 equals the twin channel's sequence after removing hook and group (no unknown, no duplicate, no reordering, nothing missing once the closing notification was answered 200). Non-trivial: a failing request arrives directly after a 200 while at least 5 generated notifications are still undelivered (the failed message sits inside a batch, so the delete-send-reinsert path re-queues a tail); distinct by (fence kind, DETECT, META, sequence of failure kind/backlog class/position, hooks, keys).")
+	c.Rule("1-3 fences, each installed as SETHOOK to a local HTTP endpoint in the test process and as a twin SETCHAN with a subscriber (WITHIN/INTERSECTS/NEARBY, generated DETECT lists, optional META), on 1-3 keys; 1-4 writer connections send bursts (3-12, mostly pipelined) of SET/DEL/FSET/DROP; each endpoint consumes a generated script, one action per arriving request: answer 200 (optionally slowly), answer 500, reset the connection instead of answering, die while handling the request (no response, listener and connections closed, re-listen after 0-1200 ms), never answer (thorough only), or refuse connections from the start; total outage per hook below 2.5 s (quick) / 9 s (thorough). Oracle: the sequence of request bodies answered 200 equals the twin channel's sequence after removing hook and group (no unknown, no duplicate, no reordering, nothing missing once the closing notification was answered 200). Non-trivial: a failing request arrives directly after a 200 while at least 5 generated notifications are still undelivered (the failed message sits inside a batch, so the delete-send-reinsert path re-queues a tail); distinct by (fence kind, DETECT, META, sequence of failure kind/backlog class/position, hooks, keys).")
 	c.Assume("a request counts as answered 200 when the handler wrote the status on a healthy connection; cases in which the test process itself was stalled (> 1 s scheduler lag, a 200 needing > 2 s, a case > 22 s) cannot distinguish a lost acknowledgement or an expired message from a defect and are recorded as inconclusive")
 	// several independent cases run side by side in one rapid iteration: a case
 	// spends most of its time waiting for the sender's 0.5 s retry pauses
